@@ -17,6 +17,12 @@ not orthogonal) the real `tf_pwa.cal_angle.cal_helicity_angle(data, chain, base_
      (`alignment_compose`), and the DENSITY of the real amplitude model computed with the two choices of base axes is equal
      (`AxesIndependent` itself; `cal_helicity_angle` is wrapped so that the library's own pipeline `config.data.cal_angle` ->
      `amp(data)` runs with the explicit axes).
+ (g) `Props/C01j.top_gammas_opposite` (PROVED on the model): Rotation_z(gamma_1) Rotation_z(gamma_2) = +1 EXACTLY for the two daughters
+     of every top vertex of the REAL cal_helicity_angle (the former check accepted +-1);
+ (h) `Props/C01j.vertex_second_daughter_exact` (PROVED on the model): at EVERY vertex of every chain, both choices of axes, the stored
+     angles of outs[1] are (alpha_1 - pi, pi - beta_1) as real numbers (events with |alpha_1| within 1e-6 of pi are skipped and counted);
+ (i) `Props/C01j.routes_carry_vertex_sheet`: the sign of r_matrix' U r_matrix^-1 of every DEEPER final particle equals the sheet
+     (-1)^turns of the level-2 azimuth on its route (first or second daughter of the level-2 vertex: the same sheet).
 Tolerance 1e-9 on angles / matrix entries (azimuths of directions within 1e-4 of the polar axis are skipped and counted),
 the density with the tolerance of harness/c01.py.
 """
@@ -180,7 +186,7 @@ def correspond_axes(ctx, res, builds):
     n_ev = 10 if ctx.quick else 50
     stat = {"getx": 0.0, "offdiag": 0.0, "lift": 0.0, "level2": 0.0, "deeper": 0.0, "D": 0.0, "rmatrix": 0.0, "density": 0.0,
             "n_top": 0, "n_level2": 0, "n_deeper": 0, "n_D": 0, "n_r": 0, "n_density": 0, "skipped_ill": 0, "events": 0,
-            "gamma12": 0.0, "n_gamma12": 0, "vphase": 0.0, "n_vphase": 0, "n_other_sheet": 0, "lift_lean": 0.0,
+            "gamma12": 0.0, "n_gamma12": 0, "second": 0.0, "n_second": 0, "sheet": 0.0, "n_sheet": 0, "vphase": 0.0, "n_vphase": 0, "n_other_sheet": 0, "lift_lean": 0.0,
             "structures": [], "density_structures": [], "max_frame_angle": 0.0, "max_gamma": 0.0, "nontrivial": 0, "density_degenerate": 0}
     first_bad = {}
     lines, plan = [], []
@@ -280,21 +286,43 @@ def correspond_axes(ctx, res, builds):
                     for (bz, bx, aa) in ((bz0, bx0, a), (bz1, bx1, a1)):
                         lines.append("C01h getx %s %s %s" % (fl(bz[i]), fl(bx[i]), fl(aa["rest_p"][i][1:])))
                         plan.append((b.st["name"], cn, key, float(aa["alpha"][i]), float(aa["beta"][i]), bool(ill[i])))
-            # --- (g) VALIDATED ONLY (part of the remaining link `hcancel` of Props/C01i): the two daughters of the top vertex
-            # turn the opposite way, Rotation_z(gamma_1) Rotation_z(gamma_2) = +-1
+            # --- (g) Props/C01j.top_gammas_opposite (PROVED on the model): the two daughters of the top vertex turn the opposite way,
+            # Rotation_z(gamma_1) Rotation_z(gamma_2) = +1 EXACTLY in SU(2) (no sign: that is what the biases -pi / -2pi are for)
             if len(gam) == 2:
                 (g1, i1), (g2, i2) = list(gam.values())
                 P12 = rot_z(g1) @ rot_z(g2)
                 I2 = np.eye(2)
-                e12 = np.where(i1 | i2, 0.0, np.minimum(np.max(np.abs(P12 - I2), axis=(1, 2)), np.max(np.abs(P12 + I2), axis=(1, 2))))
+                e12 = np.where(i1 | i2, 0.0, np.max(np.abs(P12 - I2), axis=(1, 2)))
                 stat["gamma12"] = max(stat["gamma12"], float(e12.max()))
                 stat["n_gamma12"] += n
                 kb3 = np.where(e12 > TOL)[0]
                 if len(kb3):
                     i = int(kb3[0])
-                    bad("gamma12", "hcancel (validated only): Rotation_z(gamma_1) Rotation_z(gamma_2) of the two daughters of the top vertex is not +-1",
+                    bad("gamma12", "top_gammas_opposite fails on the implementation: Rotation_z(gamma_1) Rotation_z(gamma_2) of the two daughters of the top vertex is not +1",
                         {"structure": b.st["name"], "chain": cn, "gamma_1": float(g1[i]), "gamma_2": float(g2[i])})
+            # --- (h) Props/C01j.vertex_second_daughter_exact (PROVED on the model): at EVERY vertex, for both choices of axes, the stored
+            # angles of outs[1] are (alpha_1 - pi, pi - beta_1) as real numbers (not mod 2 pi)
+            for ee in (e0, e1):
+                bydec = {}
+                for key, a in ee.items():
+                    bydec.setdefault(key[0], []).append(a)
+                for dname, pair in bydec.items():
+                    if len(pair) != 2:
+                        continue
+                    a_1, a_2 = pair
+                    edge = (np.abs(np.sin(a_1["beta"])) < 1e-4) | (np.abs(a_1["alpha"]) > np.pi - 1e-6)
+                    stat["skipped_ill"] += int(edge.sum())
+                    e2 = np.where(edge, 0.0, np.maximum(np.abs(a_2["alpha"] - (a_1["alpha"] - np.pi)), np.abs(a_2["beta"] - (np.pi - a_1["beta"]))))
+                    stat["second"] = max(stat["second"], float(e2.max()))
+                    stat["n_second"] += n
+                    kb4 = np.where(e2 > TOL)[0]
+                    if len(kb4):
+                        i = int(kb4[0])
+                        bad("second", "vertex_second_daughter_exact fails on the implementation: the stored angles of outs[1] are not (alpha_1 - pi, pi - beta_1)",
+                            {"structure": b.st["name"], "chain": cn, "decay": dname, "alpha_1,beta_1": [float(a_1["alpha"][i]), float(a_1["beta"][i])],
+                             "alpha_2,beta_2": [float(a_2["alpha"][i]), float(a_2["beta"][i])]})
             # --- below the top vertex
+            turns = {}
             for key, a in e0.items():
                 if a["depth"] == 0:
                     continue
@@ -310,6 +338,7 @@ def correspond_axes(ctx, res, builds):
                     # (f) C01i.vertex_phase_element / vertex_phase_other_sheet on the REAL D_matrix_conj: row m of the level-2
                     # D-function is multiplied by exp(-i m gamma), times (-1)^(2j) when Rotation_z(alpha') is on the other sheet
                     nturn = np.rint((a1["alpha"] - a["alpha"] + g) / (2 * math.pi))
+                    turns[key] = (nturn, ill | illm)
                     rz_err = np.max(np.abs(rot_z(a1["alpha"]) - ((-1.0) ** nturn)[:, None, None] * (rot_z(a["alpha"]) @ rot_z(-g))), axis=(1, 2))
                     for j2 in (1, 2, 3, 4):
                         z = np.zeros(n)
@@ -356,6 +385,23 @@ def correspond_axes(ctx, res, builds):
                         illd |= np.abs(np.sin(a["beta"])) < 1e-4
                         illd |= np.abs(np.sin(e1[key]["beta"])) < 1e-4
                     e = np.where(illd, 0.0, e)
+                    # Props/C01j.routes_carry_vertex_sheet: the sign IS the sheet of the level-2 azimuth the route passes through
+                    # (outs[0] or outs[1] of the daughter of the top particle: the same sheet for both)
+                    k2 = [k_ for k_ in e0 if k_[1] == nm]
+                    if k2:
+                        k_ = k2[0]
+                        while e0[k_]["depth"] > 1:
+                            k_ = e0[k_]["mother"]
+                        if k_ in turns:
+                            nt, ill2 = turns[k_]
+                            es = np.where(illd | ill2, 0.0, np.max(np.abs(M - ((-1.0) ** nt)[:, None, None] * I), axis=(1, 2)))
+                            stat["sheet"] = max(stat["sheet"], float(es.max()))
+                            stat["n_sheet"] += n
+                            kb5 = np.where(es > 1e-8)[0]
+                            if len(kb5):
+                                i = int(kb5[0])
+                                bad("sheet", "routes_carry_vertex_sheet fails on the implementation: the sign of r_matrix' U r_matrix^-1 of a deeper final particle is not the sheet of the level-2 azimuth on its route",
+                                    {"structure": b.st["name"], "chain": cn, "particle": nm, "level-2 decay/particle": k_, "turns": float(nt[i]), "M": c01_wigner.m8(M[i])})
                 stat["rmatrix"] = max(stat["rmatrix"], float(e.max()))
                 stat["n_r"] += n
                 kbad = np.where(e > 1e-8)[0]
@@ -417,7 +463,9 @@ def correspond_axes(ctx, res, builds):
         "level2_angles_compared": stat["n_level2"], "worst_level2": stat["level2"], "deeper_angles_compared": stat["n_deeper"], "worst_deeper": stat["deeper"],
         "worst_su2_lift_lean_construction_vs_scipy(up to sign)": stat["lift_lean"],
         "level2_D_matrices_compared(vertex_phase)": stat["n_vphase"], "worst_vertex_phase": stat["vphase"], "level2_vertices_on_the_other_sheet": stat["n_other_sheet"],
-        "top_vertices_gamma1_gamma2_compared(validated only)": stat["n_gamma12"], "worst_Rz(gamma1)Rz(gamma2)_vs_+-1": stat["gamma12"],
+        "top_vertices_gamma1_gamma2_compared(top_gammas_opposite)": stat["n_gamma12"], "worst_Rz(gamma1)Rz(gamma2)_vs_+1": stat["gamma12"],
+        "deeper_r_matrix_signs_compared(routes_carry_vertex_sheet)": stat["n_sheet"], "worst_sheet_sign": stat["sheet"],
+        "vertices_second_daughter_compared(vertex_second_daughter_exact)": stat["n_second"], "worst_second_daughter_angles": stat["second"],
         "D_matrices_compared": stat["n_D"], "worst_D_compose": stat["D"], "r_matrices_compared(validated only)": stat["n_r"], "worst_r_matrix": stat["rmatrix"],
         "densities_compared(validated only)": stat["n_density"], "density_structures": stat["density_structures"], "worst_density_rel": stat["density"],
         "density_degenerate_events": stat["density_degenerate"], "ill_conditioned_skipped": stat["skipped_ill"],
@@ -426,4 +474,4 @@ def correspond_axes(ctx, res, builds):
         res.broke("correspondence axes (%s): %s" % (kind, what), detail)
         if getattr(ctx, "hint", None) is None:
             ctx.hint = detail
-    return len(lines) + stat["n_top"] + stat["n_level2"] + stat["n_deeper"] + stat["n_D"] + stat["n_r"] + stat["n_density"]
+    return stat["n_second"] + len(lines) + stat["n_top"] + stat["n_level2"] + stat["n_deeper"] + stat["n_D"] + stat["n_r"] + stat["n_density"]
